@@ -14,6 +14,8 @@
 //! After each step the answer records: what arrived on the output channel, every inbox's length, and step results.
 //!
 //! mode "orch": the real threaded `ContextOrchestrator` (process().await per event, wait for the expected number of outputs).
+//! mode "orch_cp": the real threaded orchestrator built by `build_with_checkpoint`: checkpoint after start, events,
+//!              checkpoint at rest, shutdown, rebuild from the recovered checkpoint, checkpoint, more events, checkpoint.
 //! mode "ref":  the same program text without contexts in one `Engine`.
 //! Events are [type, id, v] with integer fields id and v.
 use rustc_hash::FxHashMap;
@@ -343,6 +345,88 @@ fn orch(req: &J) -> J {
     json!({"routing": routing_json(&routing), "out": out, "errors": errs})
 }
 
+/// mode "orch_cp": the real threaded orchestrator with coordinated checkpointing: run events, checkpoint at rest,
+/// shut down, rebuild with the recovered checkpoint, checkpoint again (must carry the restored counters), run more events.
+fn orch_cp(req: &J) -> J {
+    let program = match varpulis_parser::parse(req["vpl"].as_str().unwrap()) {
+        Ok(p) => p,
+        Err(e) => return json!({"error": format!("parse: {}", e)}),
+    };
+    let cmap = match load_map(&program) {
+        Ok(m) => m,
+        Err(e) => return json!({"error": format!("load: {}", e)}),
+    };
+    let names: Vec<String> = req["contexts"].as_array().unwrap().iter().map(|x| x.as_str().unwrap().to_string()).collect();
+    let cap = req["cap"].as_u64().unwrap() as usize;
+    let timeout_ms = req["timeout_ms"].as_u64().unwrap_or(10000);
+    let grace_ms = req["grace_ms"].as_u64().unwrap_or(100);
+    let store: Arc<dyn StateStore> = Arc::new(MemoryStore::new());
+    let rt = tokio::runtime::Builder::new_current_thread().enable_all().build().unwrap();
+    let mut phases = Vec::new();
+    let mut recovered: Option<Checkpoint> = None;
+    for (evk, exk) in [("events", "expect"), ("events2", "expect2")] {
+        let (out_tx, mut out_rx) = mpsc::channel::<Event>(1 << 20);
+        let mut orch = match ContextOrchestrator::build_with_checkpoint(&cmap, &program, out_tx, cap, Some((cp_config(), store.clone())), recovered.as_ref()) {
+            Ok(o) => o,
+            Err(e) => return json!({"error": format!("build: {}", e)}),
+        };
+        let expect = req[exk].as_u64().unwrap_or(0) as usize;
+        let mut out = Vec::new();
+        let mut cps = Vec::new();
+        rt.block_on(async {
+            // a checkpoint right after the (re)start shows what the contexts were restored to
+            for round in 0..2 {
+                if round == 1 {
+                    for e in req[evk].as_array().unwrap() {
+                        let _ = orch.process(Arc::new(ev_of(e))).await;
+                    }
+                    let t0 = std::time::Instant::now();
+                    let mut reached: Option<std::time::Instant> = None;
+                    loop {
+                        while let Ok(e) = out_rx.try_recv() {
+                            out.push(ev_json(&e));
+                        }
+                        if out.len() >= expect && reached.is_none() {
+                            reached = Some(std::time::Instant::now());
+                        }
+                        if reached.map(|r| r.elapsed() >= Duration::from_millis(grace_ms)).unwrap_or(false) || t0.elapsed() >= Duration::from_millis(timeout_ms) {
+                            break;
+                        }
+                        tokio::time::sleep(Duration::from_millis(5)).await;
+                    }
+                }
+                orch.trigger_checkpoint();
+                let t0 = std::time::Instant::now();
+                let mut done = false;
+                while t0.elapsed() < Duration::from_millis(timeout_ms) {
+                    match orch.try_complete_checkpoint() {
+                        Ok(true) => {
+                            done = true;
+                            break;
+                        }
+                        Ok(false) => {}
+                        Err(_) => break,
+                    }
+                    tokio::time::sleep(Duration::from_millis(5)).await;
+                }
+                let m = CheckpointManager::new(store.clone(), cp_config()).unwrap();
+                let cp = m.recover().ok().flatten();
+                cps.push(json!({"completed": done, "id": cp.as_ref().map(|c| c.id),
+                    "consumed": names.iter().map(|n| json!(cp.as_ref().and_then(|c| c.context_states.get(n)).map(|e| e.events_processed))).collect::<Vec<_>>()}));
+                if done {
+                    recovered = cp;
+                }
+            }
+        });
+        orch.shutdown();
+        while let Ok(e) = out_rx.try_recv() {
+            out.push(ev_json(&e));
+        }
+        phases.push(json!({"out": out, "checkpoints": cps}));
+    }
+    json!({"phases": phases})
+}
+
 fn reference(req: &J) -> J {
     let program = match varpulis_parser::parse(req["vpl"].as_str().unwrap()) {
         Ok(p) => p,
@@ -382,6 +466,7 @@ fn main() {
         let res = std::panic::catch_unwind(std::panic::AssertUnwindSafe(|| match req["mode"].as_str().unwrap_or("direct") {
             "direct" => direct(&req),
             "orch" => orch(&req),
+            "orch_cp" => orch_cp(&req),
             "ref" => reference(&req),
             m => json!({"error": format!("bad mode {}", m)}),
         }));
